@@ -11,10 +11,13 @@ import (
 	"os"
 	"os/exec"
 	"path/filepath"
+	"regexp"
 	"sort"
 	"strings"
 	"time"
 )
+
+var harnessNameRe = regexp.MustCompile(`^VerifC[0-9]+_[A-Za-z0-9_]+$`)
 
 type replayFile struct {
 	Property string            `json:"property"`
@@ -108,7 +111,7 @@ func (e *Engine) harnessNames(pkgDir string) []string {
 		for _, line := range strings.Split(string(src), "\n") {
 			if strings.HasPrefix(line, "func Verif") {
 				n := strings.TrimPrefix(line, "func ")
-				if i := strings.Index(n, "("); i > 0 {
+				if i := strings.Index(n, "("); i > 0 && harnessNameRe.MatchString(n[:i]) {
 					names = append(names, n[:i])
 				}
 			}
@@ -149,6 +152,10 @@ func (e *Engine) runNative(rf *replayFile, replayPath string) (string, string) {
 	defer func() {
 		if r := recover(); r != nil {
 			if _, ok := r.(verifrt.AssumeFailed); ok {
+				if len(verifrt.Failures) > 0 {
+					fmt.Println("REPLAY-RESULT: assert-fail " + strings.Join(verifrt.Failures, ","))
+					return
+				}
 				fmt.Println("REPLAY-RESULT: assume-failed")
 				return
 			}
